@@ -260,6 +260,23 @@ func cmdCheck(args []string) {
 	defer d.Close()
 	all := append(append([]*Obligation{}, claimed...), vac...)
 	d.RunAll(w, all, *par)
+	// undecided (never: refuted) claimed obligations get a second, uncontended attempt with a longer limit before
+	// they are reported: solver time is wall-clock and 16 obligations x 2 back ends compete for the cores
+	var again []*Obligation
+	for _, o := range claimed {
+		if o.Status == "unknown" {
+			again = append(again, o)
+		}
+	}
+	if len(again) > 0 && len(again) <= 24 {
+		d2 := NewDischarger(filepath.Join(*verif, "cache"), useCache, timeout*3)
+		d2.RunAll(w, again, 4)
+		d2.Close()
+		d.total += d2.total
+		for k, v := range d2.stats {
+			d.stats[k+"(retry)"] += v
+		}
+	}
 
 	// group by name
 	type group struct {
